@@ -72,6 +72,8 @@ async function dynamic ({ leaf, resp, a, v, code, ctx }) {
 module.exports = mk({
   id: 'C03',
   families: ['A', 'C', 'B', 'M'],
+  // real library files: the same static oracle on syntax nobody wrote an expectation for
+  corpus: { configs: ['FULL', 'RENAMED'], quickLimit: 60 },
   familyOpts: (tier) => ({ B: { k: tier === 'thorough' ? 2 : 1 } }),
   // operations whose operands are `+` expressions, under configurations with the plus operator disabled
   // (the operand is then NOT turned into a hook call by the child-first traversal)
@@ -96,7 +98,7 @@ module.exports = mk({
     let staticProblems = 0
     for (const p of a.erasure.problems) if (C03_RULES.has(p.rule)) { staticProblems++; v(p.rule, p.sig + (a.cm.plus ? ' cfg-plus-on' : ' cfg-plus-off'), p.detail) }
     // the dynamic oracle would only repeat a statically located defect
-    res.evaluations = 1 + (staticProblems ? 0 : await dynamic(o))
+    res.evaluations = 1 + ((staticProblems || o.leaf.corpusFile) ? 0 : await dynamic(o))
   },
   bound: (tier) => ({ nesting_depth: 2, context_deviations_k: tier === 'thorough' ? 2 : 1, envs: 'baseline + one-at-a-time deviations + 3 pairs' }),
   rule: 'leaf = program of families A (every operand atom in every slot of every schema), C (every schema nested in every slot), B (contexts, k deviations); non-trivial = at least one hook call site in the content; distinct by (text, config)',
